@@ -108,20 +108,20 @@ fn lit(start: &str, mid: &str, end: &str) -> String {
 /// every ordered pair (end of the first literal, start of the second literal)
 pub fn boundary_pairs() -> Vec<(&'static str, String, String)> {
     let mut out = vec![];
-    let mut k = 0usize;
-    for &e in BOUNDARY.iter() {
-        for &s in BOUNDARY.iter() {
-            let (ce, te) = PIECES[e];
-            let (cs, ts) = PIECES[s];
+    for (ei, &e) in BOUNDARY.iter().enumerate() {
+        for (si, &s) in BOUNDARY.iter().enumerate() {
+            let (_, te) = PIECES[e];
+            let (_, ts) = PIECES[s];
+            let p = ei * BOUNDARY.len() + si;
             for (kind, templates) in [("op", &OP_TEMPLATES), ("ts", &TS_TEMPLATES)] {
-                let template = &templates[k % templates.len()];
-                let (sn, sep) = SEPARATORS[(k / 2) % SEPARATORS.len()];
+                // template and separator rotate independently of the pieces
+                let template = &templates[(p * 5 + ei) % templates.len()];
+                let (sn, sep) = SEPARATORS[(p * 7 + 3 * ei + si / 2) % SEPARATORS.len()];
                 let sn = if template.1.is_empty() { "fixed" } else { sn };
-                k += 1;
-                // the facing ends carry the pieces; the far ends are plain, a third literal repeats the second
-                let (l0, l1) = (lit(if k % 2 == 0 { "x" } else { "" }, "", te), lit(ts, "", if k % 3 == 0 { "y" } else { "" }));
-                let text = fill(template, &[l0, l1.clone(), l1], sep);
-                let _ = (ce, cs);
+                // only the facing ends carry the pieces: everything else in the document is harmless, so that nothing
+                // but the boundary can be rejected
+                let (l0, l1) = (lit(if p % 2 == 0 { "x" } else { "" }, "", te), lit(ts, "", if p % 3 == 0 { "y" } else { "" }));
+                let text = fill(template, &[l0, l1], sep);
                 out.push((kind, text, format!("string-boundary:{sn}")));
             }
         }
@@ -135,7 +135,7 @@ pub fn boundary_pairs() -> Vec<(&'static str, String, String)> {
                 }
                 let sn = if template.1.is_empty() { "fixed" } else { sn };
                 for (a, b) in [("\\uD83D", "\\uDE00"), ("\\uDE00", "\\uD83D"), ("\\uD83D", "\\uD83D"), ("\\u{D83D}", "\\uDE00"), ("\\uD83D", "\\u{DE00}")] {
-                    let text = fill(template, &[lit("", "", a), lit(b, "", ""), lit(b, "x", a)], sep);
+                    let text = fill(template, &[lit("", "", a), lit(b, "", "")], sep);
                     out.push((kind, text, format!("string-boundary:surrogates:{sn}")));
                 }
             }
